@@ -711,7 +711,12 @@ impl EliasFanoBuilder {
     /// `n` numbers smaller than or equal to `u`.
     pub fn new(n: usize, u: usize) -> Self {
         let l = if n > 0 && u >= n {
-            (u as f64 / n as f64).log2().floor() as usize
+            // u as f64 can round up to 2^64: the width must stay below the
+            // word size, as values are shifted by it.
+            Ord::min(
+                (u as f64 / n as f64).log2().floor() as usize,
+                usize::BITS as usize - 1,
+            )
         } else {
             0
         };
@@ -872,7 +877,12 @@ impl EliasFanoConcurrentBuilder {
     /// numbers smaller than or equal to `u`.
     pub fn new(n: usize, u: usize) -> Self {
         let l = if n > 0 && u >= n {
-            (u as f64 / n as f64).log2().floor() as usize
+            // u as f64 can round up to 2^64: the width must stay below the
+            // word size, as values are shifted by it.
+            Ord::min(
+                (u as f64 / n as f64).log2().floor() as usize,
+                usize::BITS as usize - 1,
+            )
         } else {
             0
         };
